@@ -393,4 +393,58 @@ def run_valgrind(ctx):
 
 
 def replay(acc, w):
-    acc.notes.append("replay: the witness holds the exact arguments (hex floats); re-run the check with the recorded seed")
+    """Re-judge the recorded arguments (merged-image and closed-form cases) with the same oracles."""
+    x = w["witness"]
+    fh = float.fromhex
+    if x.get("kind") == "merged":
+        from vf.jf import init_setting
+        L = x["L"]
+        init_setting(3, [L] * 3, cubic=True)
+        from jellyfysh.potential.merged_image_coulomb_potential import MergedImageCoulombPotential
+        pot = MergedImageCoulombPotential(prefactor=x["pref"])
+        s = [fh(v) for v in x["s"]]
+        vel = [0.0] * 3
+        vel[x["d"]] = x["speed"]
+        got = pot.derivative(vel, list(s), *x["c"])
+        a = Ewald(L, alpha=2.2, nreal=4, kmax=7).d_active(s, x["d"])
+        b = Ewald(L, alpha=4.0, nreal=3, kmax=13).d_active(s, x["d"])
+        r = math.sqrt(sum(c * c for c in s))
+        q = x["pref"] * x["c"][0] * x["c"][1] * x["speed"]
+        if abs(a - b) <= 1e-9 * (1 / L ** 2 + 1 / r ** 2) and abs(got - q * a) > 1e-8 * abs(q) * (1 / L ** 2 + 1 / r ** 2):
+            acc.violation(w["key"], f"replayed: derivative {got!r}, independent lattice-sum gradient {q * a!r}", x)
+        for name, kw in (("a2.5", dict(alpha=2.5, fourier_cutoff=8, position_cutoff=3)),
+                         ("a4.5", dict(alpha=4.5, fourier_cutoff=10, position_cutoff=2))):
+            g2 = MergedImageCoulombPotential(prefactor=x["pref"], **kw).derivative(vel, list(s), *x["c"])
+            if abs(g2 - got) > 1e-8 * abs(q) * (1 / L ** 2 + 1 / r ** 2):
+                acc.violation("C03:depends-on-ewald-splitting", f"replayed: default {got!r}, {name} {g2!r}", x)
+    elif x.get("kind") in ("inverse_power", "lennard_jones", "displaced_even_power"):
+        from vf.jf import init_setting
+        init_setting(3, [x["L"]] * 3)
+        p = x["params"]
+        c1, c2 = x["c"]
+        if x["kind"] == "inverse_power":
+            from jellyfysh.potential.inverse_power_potential import InversePowerPotential
+            pot, radial, extra = InversePowerPotential(power=p["power"], prefactor=p["prefactor"]), \
+                en.InversePower(p["prefactor"] * c1 * c2, p["power"]), (c1, c2)
+        elif x["kind"] == "lennard_jones":
+            from jellyfysh.potential.lennard_jones_potential import LennardJonesPotential
+            pot, radial, extra = LennardJonesPotential(prefactor=p["prefactor"], characteristic_length=p["sigma"]), \
+                en.LennardJones(p["prefactor"], p["sigma"]), ()
+        else:
+            from jellyfysh.potential.displaced_even_power_potential import DisplacedEvenPowerPotential
+            pot = DisplacedEvenPowerPotential(equilibrium_separation=p["r0"], power=p["power"], prefactor=p["prefactor"])
+            radial, extra = en.DisplacedEvenPower(p["prefactor"], p["r0"], p["power"]), ()
+        s = [fh(v) for v in x["s"]]
+        d = x["d"]
+        vel = [0.0] * 3
+        vel[d] = x["speed"]
+        got = pot.derivative(vel, list(s), *extra)
+        r = math.sqrt(sum(c * c for c in s))
+        rho2 = sum(c * c for i, c in enumerate(s) if i != d)
+        want = -richardson(lambda sd: radial.U(math.sqrt(rho2 + sd * sd)), s[d], 1e-3 * r) * x["speed"]
+        hh = 1e-3 * r
+        scale = max(abs(radial.dU(r)), abs(radial.dU(r + hh)), abs(radial.dU(max(r - hh, 1e-300)))) * x["speed"] + 1e-300
+        if abs(got - want) > 1e-7 * scale:
+            acc.violation(w["key"], f"replayed: derivative {got!r}, gradient of the independent energy {want!r}", x)
+    else:
+        acc.notes.append("replay: re-run the check with the recorded seed")
